@@ -36,7 +36,7 @@ func init() {
 func vJSONSnap(r *vRunner, o vOp) {
 	doc := vunhex(o.Doc)
 	cfg := &Config{}
-	width, indent, sortKeys := 0, " ", true
+	width, indent, sortKeys := vDefaultJSONLayout()
 	if o.JSON != nil {
 		cfg.json = &JSONConfig{Width: o.JSON.Width, Indent: o.JSON.Indent, SortKeys: o.JSON.SortKeys}
 		width, indent, sortKeys = o.JSON.Width, o.JSON.Indent, o.JSON.SortKeys
@@ -90,8 +90,9 @@ func vJSONSet(r *vRunner, o vOp) {
 	if err := json.Unmarshal(valueText, &placeholder); err != nil {
 		placeholder = string(valueText)
 	}
-	fmt.Fprintf(r.w, "op jsonset doc=%s path=%s value=%s\n",
-		vhex(doc), vhex([]byte(path)), vhex(vPlaceholderText(placeholder)))
+	dw, di, _ := vDefaultJSONLayout()
+	fmt.Fprintf(r.w, "op jsonset doc=%s path=%s value=%s width=%d indent=%s\n",
+		vhex(doc), vhex([]byte(path)), vhex(vPlaceholderText(placeholder)), dw, vhex([]byte(di)))
 
 	// on a copy
 	errS, result := "0", "-"
